@@ -405,6 +405,20 @@ def build(tier, repo):
                 miss.append("copied back into MAT_BUFI(..) after %s" % routines[0])
             if in_kind and not out_kind and into < 1:
                 miss.append("filled from MAT_BUFI(..) before %s" % routines[0])
+            # pivots that are pure *input* (solve / inverse after a factorisation) come from the caller: each entry is range-tested
+            # before LAPACK uses it to interchange rows
+            if in_kind and not out_kind and re.search(r"(trs|tri)$", base) and into >= 1:
+                loop = re.search(r"for\s*\([^)]*\)\s*\{(?:[^{}]|\{[^{}]*\})*\b%s\s*\[[^\]]*\]\s*=\s*(?:\(int\)\s*)?MAT_BUFI\s*\(\s*(\w+)\s*\)" % re.escape(P), txt)
+                tested = loop is not None and re.search(r"if\s*\([^;{]*MAT_BUFI\s*\(\s*%s\s*\)\s*\[[^\]]*\]\s*(?:<|>|==)" % re.escape(loop.group(1)), loop.group(0)) \
+                    and re.search(r"PY_ERR|err_|return", loop.group(0))
+                k2 = "%s:%s entries are range-tested before %s" % (fn, P, routines[0])
+                if tested:
+                    r7.ok(k2, where)
+                else:
+                    r7.violation(k2, where,
+                                 "the caller's pivot vector is copied into `%s` and handed to %s without a test that its entries are row numbers: LAPACK "
+                                 "interchanges rows outside the matrices for a never-factored or corrupted ipiv (heap corruption)" % (P, routines[0]),
+                                 "if (MAT_BUFI(ipiv)[i] < 1 || > n) -> ValueError inside the copy loop", "no range test")
             if miss:
                 r7.violation(key, where, "the scratch pivot array `%s` is never %s: on LP64 the caller's integer matrix and the "
                              "array LAPACK used hold different pivots" % (P, " / ".join(miss)), "element-wise copy loop", "absent")
